@@ -302,6 +302,18 @@ def register4(E):
     def collect_into(e, target, items):
         t = target.strip()
         if t == '()' or (re.fullmatch(r'[A-Z]\w{0,2}', t) and all(x is UNIT or (isinstance(x, Agg) and x.ty == 'unit') for x in items)): return UNIT
+        if re.match(r'\s*<?(std::option::)?Option<', t):
+            inner = []
+            for x in items:
+                if x.v == 'None': return NONE()
+                inner.append(x.f[0])
+            return SOME(collect_into(e, inner_type(t), inner))
+        if re.match(r'\s*<?(std::result::)?Result<', t):
+            inner = []
+            for x in items:
+                if x.v == 'Err': return x
+                inner.append(x.f[0])
+            return OK(collect_into(e, split_top(inner_type(t))[0], inner))
         if re.search(r'HashMap<|BTreeMap<', t) and not re.match(r'\s*<?(Vec|SmallVec|std::vec::Vec|smallvec::SmallVec)<', t.lstrip('<')):
             if 'BTreeMap<' in t:
                 m = BTreeMapM()
@@ -333,18 +345,6 @@ def register4(E):
                 x = deref(x)
                 out.extend(E.sbytes(x) if not isinstance(x, (int,)) and not z3.is_expr(x) and not hasattr(x, 'id') else [x])
             return Vec(out, 'String')
-        if re.match(r'\s*<?(std::option::)?Option<', t):
-            inner = []
-            for x in items:
-                if x.v == 'None': return NONE()
-                inner.append(x.f[0])
-            return SOME(collect_into(e, inner_type(t), inner))
-        if re.match(r'\s*<?(std::result::)?Result<', t):
-            inner = []
-            for x in items:
-                if x.v == 'Err': return x
-                inner.append(x.f[0])
-            return OK(collect_into(e, split_top(inner_type(t))[0], inner))
         if re.match(r'\s*<?(bstr::)?BString\b', t): return Vec(items, 'BString')
         if re.match(r'\s*<?(smallvec::)?SmallVec<', t): return Vec(items, 'SmallVec')
         if re.match(r'\s*<?(std::vec::|alloc::vec::)?Vec<', t) or t.strip() in ('', '_'): return Vec(items, 'Vec')
